@@ -80,11 +80,14 @@ class Generator(SchemaVisitor[Any]):
         if schema.props.value is not Nil:
             return schema.props.value
 
-        min_value = schema.props.min if (schema.props.min is not Nil) else FLOAT_MIN
-        max_value = schema.props.max if (schema.props.max is not Nil) else FLOAT_MAX
-        if schema.props.max is Nil:
+        # an infinite bound on its own side bounds nothing
+        has_min = (schema.props.min is not Nil) and (schema.props.min != float("-inf"))
+        has_max = (schema.props.max is not Nil) and (schema.props.max != float("inf"))
+        min_value = schema.props.min if has_min else FLOAT_MIN
+        max_value = schema.props.max if has_max else FLOAT_MAX
+        if not has_max:
             max_value = max(max_value, min_value)
-        if schema.props.min is Nil:
+        if not has_min:
             min_value = min(min_value, max_value)
         precision = schema.props.precision if (schema.props.precision is not Nil) else Nil
 
